@@ -35,6 +35,37 @@ def check(run):
             run.violation(sig, text, {"case": c, "outcome": r.get("outcome")})
         if len(run.samples) < 2 and rep:
             run.sample({"options": c["options"], "statuses": {"%s %s" % k: v["status"] for k, v in list(runoracle._results_of_report(rep).items())[:12]}})
+    # directed family: two (three) tests running at the same time, each with a user thread of its own; one test's thread has
+    # ended while the test goes on, the other test's thread starts afterwards (the OS hands out the identifier of the thread
+    # that is gone again) and is the only one that fails -- under random schedules and real worker threads
+    nohooks = {"setup_suite": None, "teardown_suite": None, "setup_test": None, "teardown_test": None}
+
+    def tst(name, rank, body):
+        return {"name": name, "disabled": False, "rank": rank, "deps": [], "args": [], "params": {}, "body": body}
+    rcases = []
+    for k in range(24 if run.tier == "quick" else 400):
+        fails = run.rng.choice([["log", 3, 3], ["check", False, 3]])
+        early = [["spawn", [["log", 1, 1]] + ([["step", 2], ["log", 1, 4]] if run.rng.random() < 0.5 else [])], ["join"]] + \
+            [["mark", i] for i in range(run.rng.randint(2, 6))] + [["log", 1, 2]]
+        late = [["mark", 10 + i] for i in range(run.rng.randint(1, 5))] + \
+            [["spawn", ([["step", 5]] if run.rng.random() < 0.5 else []) + [fails]], ["join"]]
+        tests = [tst("t7", 0, early), tst("t8", 1, late)]
+        if run.rng.random() < 0.4:
+            tests.append(tst("t9", 2, [["mark", 20], ["spawn", [["log", 1, 6]]], ["join"], ["mark", 21]]))
+        run.rng.shuffle(tests)
+        for i, t in enumerate(tests):
+            t["rank"] = i
+        rcases.append({"id": "vr%d" % k, "project": {"fixtures": [], "suites": [
+            {"name": "s6", "disabled": False, "rank": 0, "hooks": nohooks, "injected": [], "tests": tests, "subs": []}]},
+            "sched": projgen.gen_sched(run.rng, run.rng.choice(["random", "bursts", "last"])),
+            "options": {"nb_threads": run.rng.choice([2, 2, 3]), "stop_on_failure": False, "force_disabled": False}})
+    rres = engine.cosim(run, rcases)
+    for c in rcases:
+        r = rres.get(c["id"]) or {"outcome": ["hang", "no result"]}
+        run.evaluations += 1
+        run.count("user_thread_after_user_thread_runs")
+        for sig, text in runoracle.c02_oracle(c, r):
+            run.violation(sig, text, {"case": c, "outcome": r.get("outcome")})
     # skipped although nothing failed: quiet projects interrupted by Ctrl-C at a random step of the main loop; only the success
     # flags are judged (in-flight code is outside the fragment of layer 3: layers 1 and 2 only)
     quiet = dict(PROFILE, p_fail=0.0, p_spawn=0.0)
